@@ -12,6 +12,7 @@ mod c10;
 mod c11;
 mod crash;
 mod c12;
+mod c13;
 mod c14;
 mod c15;
 mod c16;
@@ -57,6 +58,7 @@ fn run(args: &[String], tier: &str) -> i32 {
         "crash-child" => crash::c11_child(&args),
         "C12" => c12::run(tier),
         "C12-child" => c12::child(&args),
+        "C13" => c13::run(tier),
         "C14" => c14::run(tier),
         "C15" => c15::run(tier),
         "C16" => c16::run(tier),
